@@ -190,3 +190,71 @@ def in_scope(c, level, node_kind, n, owner):
         return z3.And(base, is_VRef(sec), mod == VRef(owner))
     ir = c.get("_ir", ref(mod))
     return z3.And(base, is_VRef(sec), is_VRef(mod), ir == VRef(owner))
+
+
+# ------------------------------------------------------------------------------------------------ per-relation forms
+def _rel(c, parent_cls, child_cls, coll_field, wrapper_cls, parent_field, wrapper_of_parent=None):
+    """parent/child relation kept from both ends:  child in parent.<coll_field>  <=>  child.<parent_field> is parent."""
+    p = fresh("p", Int)
+    ch = fresh("ch", Int)
+    v = fresh("v", Val)
+    w = c.get(coll_field, p)
+    pv = c.get(parent_field, ch)
+    return z3.And(
+        z3.ForAll([p], z3.Implies(c.isinst(p, parent_cls), z3.And(
+            is_VRef(w), kind_is(c, ref(w), wrapper_cls), c.get("_node", ref(w)) == VRef(p)))),
+        z3.ForAll([p, v], z3.Implies(z3.And(c.isinst(p, parent_cls), z3.Select(data(c, w), v)),
+                                     z3.And(is_VRef(v), c.isinst(ref(v), child_cls),
+                                            c.get(parent_field, ref(v)) == VRef(p)))),
+        z3.ForAll([ch], z3.Implies(c.isinst(ch, child_cls), z3.Or(is_VNone(pv), z3.And(
+            is_VRef(pv), c.isinst(ref(pv), parent_cls),
+            z3.Select(data(c, c.get(coll_field, ref(pv))), VRef(ch)))))),
+    )
+
+
+def rel_block(c):
+    return _rel(c, "ByteInterval", "ByteBlock", "blocks", "ByteInterval._BlockSet", "_byte_interval")
+
+
+def rel_interval(c):
+    return _rel(c, "Section", "ByteInterval", "byte_intervals", "Section._ByteIntervalSet", "_section")
+
+
+def rel_section(c):
+    return _rel(c, "Module", "Section", "sections", "Module._NodeSet", "_module")
+
+
+def rel_symbol(c):
+    return _rel(c, "Module", "Symbol", "symbols", "Module._NodeSet", "_module")
+
+
+def rel_proxy(c):
+    return _rel(c, "Module", "ProxyBlock", "proxies", "Module._NodeSet", "_module")
+
+
+def rel_module(c):
+    """IR.modules is a list without repetitions whose items are exactly the modules whose _ir is that IR
+    ($modpos: ghost position of an attached module)."""
+    m = fresh("m", Int)
+    ir = fresh("ir", Int)
+    i = fresh("i", Int)
+    j = fresh("j", Int)
+    ml = c.get("modules", ir)
+    items = z3.Select(c.arr("ListWrapper._data#items"), ref(ml))
+    n = z3.Select(c.arr("ListWrapper._data#len"), ref(ml))
+    pi = c.get("_ir", m)
+    pos = z3.Select(c.arr("$modpos"), m)
+    ml2 = c.get("modules", ref(pi))
+    items2 = z3.Select(c.arr("ListWrapper._data#items"), ref(ml2))
+    n2 = z3.Select(c.arr("ListWrapper._data#len"), ref(ml2))
+    return z3.And(
+        z3.ForAll([ir], z3.Implies(c.isinst(ir, "IR"), z3.And(
+            is_VRef(ml), kind_is(c, ref(ml), "IR._ModuleList"), c.get("_node", ref(ml)) == VRef(ir), n >= 0))),
+        z3.ForAll([ir, i], z3.Implies(z3.And(c.isinst(ir, "IR"), 0 <= i, i < n),
+                                      z3.And(is_VRef(z3.Select(items, i)), c.isinst(ref(z3.Select(items, i)), "Module"),
+                                             c.get("_ir", ref(z3.Select(items, i))) == VRef(ir)))),
+        z3.ForAll([ir, i, j], z3.Implies(z3.And(c.isinst(ir, "IR"), 0 <= i, i < j, j < n),
+                                         z3.Select(items, i) != z3.Select(items, j))),
+        z3.ForAll([m], z3.Implies(c.isinst(m, "Module"), z3.Or(is_VNone(pi), z3.And(
+            is_VRef(pi), c.isinst(ref(pi), "IR"), 0 <= pos, pos < n2, z3.Select(items2, pos) == VRef(m))))),
+    )
